@@ -9,19 +9,25 @@ use riscv_analysis::passes::Manager;
 use std::collections::HashMap;
 use std::panic::{catch_unwind, AssertUnwindSafe};
 
-struct Machine { regs: [i32; 32], mem: HashMap<i32, u8> }
+struct Machine { regs: [i32; 32], mem: HashMap<i32, u8>, salt: u32 }
 
 impl Machine {
     fn r(&self, r: &Register) -> i32 { self.regs[r.to_num() as usize] }
     fn w(&mut self, r: &Register, v: i32) { if r.to_num() != 0 { self.regs[r.to_num() as usize] = v; } }
     fn load(&self, addr: i32, n: usize) -> Option<u32> {
         let mut v = 0u32;
-        for i in 0..n { v |= (*self.mem.get(&addr.wrapping_add(i as i32))? as u32) << (8 * i); }
+        for i in 0..n {
+            let a = addr.wrapping_add(i as i32);
+            // memory the program never wrote holds an arbitrary (but fixed) byte
+            let b = self.mem.get(&a).copied().unwrap_or_else(|| ((a as u32).wrapping_mul(2654435761).wrapping_add(self.salt) >> 13) as u8);
+            v |= (b as u32) << (8 * i);
+        }
         Some(v)
     }
     fn store(&mut self, addr: i32, v: u32, n: usize) { for i in 0..n { self.mem.insert(addr.wrapping_add(i as i32), (v >> (8 * i)) as u8); } }
     /// executes one node; false = instruction outside the interpreted subset (stop checking this program)
     fn step(&mut self, n: &ParserNode) -> bool {
+        if matches!(n, ParserNode::Branch(_) | ParserNode::JumpLink(_)) { return true; }   // control transfer is handled by the caller
         let lower = |s: String| s.to_lowercase();
         match n {
             ParserNode::Arith(x) => { let v = rv32(&lower(format!("{:?}", x.inst.get())), self.r(x.rs1.get()), self.r(x.rs2.get())); self.w(x.rd.get(), v); true }
@@ -73,34 +79,60 @@ pub fn check_program(src: &str) -> Option<String> {
         Manager::gen_full_cfg(nodes).map_err(|_| "CFG construction failed".to_string())
     }));
     let cfg = match res { Ok(Ok(c)) => c, Ok(Err(e)) => return Some(e), Err(_) => return Some(format!("analysis panicked on {text:?}")) };
-    for seed in 0..4u32 {
+    for seed in 0..6u32 {
         let mut init = [0i32; 32];
         let mut s = 0x9E37_79B9u32.wrapping_mul(seed + 1);
         for k in 1..32 { s = s.wrapping_mul(1664525).wrapping_add(1013904223); init[k] = s as i32; }
         init[2] = 0x7ff0_0000u32 as i32 + (seed as i32) * 64;      // a plausible, aligned stack pointer
-        let mut m = Machine { regs: init, mem: HashMap::new() };
-        for node in cfg.nodes() {
+        init[10] = match seed { 0 => 0, 1 => 1, 2 => 3, 3 => -1, _ => init[10] };   // a0 drives the branches of the sample programs
+        let mut m = Machine { regs: init, mem: HashMap::new(), salt: seed.wrapping_mul(97) };
+        let nodes = cfg.nodes();
+        let label_at = |name: &str| nodes.iter().position(|x| matches!(x.node(), ParserNode::Label(l) if l.name.get().as_str() == name));
+        let mut pc = 0usize;
+        let mut steps = 0;
+        while pc < nodes.len() && steps < 400 {
+            steps += 1;
+            let node = &nodes[pc];
             let pn = node.node();
             if pn.is_ecall() { break; }
+            // branch decision before the instruction's effects (branches write no register)
+            let mut next = pc + 1;
+            match &pn {
+                ParserNode::Branch(x) => {
+                    let (a, b) = (m.r(x.rs1.get()), m.r(x.rs2.get()));
+                    let taken = match format!("{:?}", x.inst.get()).to_lowercase().as_str() {
+                        "beq" => a == b, "bne" => a != b, "blt" => a < b, "bge" => a >= b,
+                        "bltu" => (a as u32) < (b as u32), "bgeu" => (a as u32) >= (b as u32), _ => break,
+                    };
+                    if taken { match label_at(x.name.get().as_str()) { Some(t) => next = t, None => break } }
+                }
+                ParserNode::JumpLink(x) => {
+                    if x.rd.get().to_num() != 0 { break; }       // calls are outside the interpreted subset
+                    match label_at(x.name.get().as_str()) { Some(t) => next = t, None => break }
+                }
+                _ => {}
+            }
             if !m.step(&pn) { break; }
-            if !pn.is_instruction() { continue; }
-            for (reg, val) in node.reg_values_out().iter() {
-                if let Some(want) = den(val, &init) {
-                    let have = m.r(reg);
-                    if have != want {
-                        return Some(format!("after `{}` the analyzer claims {reg} = {val} (= {want} when the entry registers are seed {seed}), the machine has {have}; program: {src:?}", pn.raw_text_safe()));
+            if pn.is_instruction() {
+                for (reg, val) in node.reg_values_out().iter() {
+                    if let Some(want) = den(val, &init) {
+                        let have = m.r(reg);
+                        if have != want {
+                            return Some(format!("after `{}` the analyzer claims {reg} = {val} (= {want} when the entry registers are seed {seed}), the machine has {have}; program: {src:?}", pn.raw_text_safe()));
+                        }
+                    }
+                }
+                for (loc, val) in node.memory_values_out().iter() {
+                    if let (MemoryLocation::StackOffset(o), Some(want)) = (loc, den(val, &init)) {
+                        let addr = init[2].wrapping_add(*o);
+                        match m.load(addr, 4) {
+                            Some(have) if have as i32 == want => {}
+                            other => return Some(format!("after `{}` the analyzer claims stack slot sp0{o:+} holds {val} (= {want}), the machine has {other:?}; program: {src:?}", pn.raw_text_safe())),
+                        }
                     }
                 }
             }
-            for (loc, val) in node.memory_values_out().iter() {
-                if let (MemoryLocation::StackOffset(o), Some(want)) = (loc, den(val, &init)) {
-                    let addr = init[2].wrapping_add(*o);
-                    match m.load(addr, 4) {
-                        Some(have) if have as i32 == want => {}
-                        other => return Some(format!("after `{}` the analyzer claims stack slot sp0{o:+} holds {val} (= {want}), the machine has {other:?}; program: {src:?}", pn.raw_text_safe())),
-                    }
-                }
-            }
+            pc = next;
         }
     }
     None
@@ -140,9 +172,17 @@ pub fn search(v: &serde_json::Value) -> i32 {
         "addi sp, sp, 16\nlw t0, 2147483647(sp)\naddi sp, sp, -16",
         "addi sp, sp, -16\nlw t0, -2147483648(sp)\nsw t0, -2147483648(sp)\naddi sp, sp, 16",
         "li t0, 2147483647\naddi sp, sp, -8\nsw t0, 0(sp)\naddi t0, t0, 1\nmv s0, sp\naddi s0, s0, 2047\naddi sp, sp, 8",
+        "addi sp, sp, -16\naddi t0, sp, 8\nadd t2, t0, sp\nsub t3, t0, sp\nadd t4, sp, sp\nsub t5, sp, sp\nsub t6, sp, t0\naddi sp, sp, 16",
+        "mv t0, s0\naddi t1, s0, 4\nadd t2, t0, t1\nsub t3, t1, t0\nadd t4, s0, s0\nsub t5, s0, s0",
+        "addi sp, sp, -4\nbeq a0, zero, skip\nli t0, 7\nsw t0, 0(sp)\nskip:\nlw t1, 0(sp)\naddi sp, sp, 4",
+        "beq a0, zero, else\nli t0, 1\nj end\nelse:\nli t0, 2\nend:\nadd t1, t0, t0\nli t2, 5",
+        "li t0, 1\nbeq a0, zero, end\nli t0, 1\nend:\naddi t1, t0, 1",
+        "addi sp, sp, -8\nsw ra, 4(sp)\nbnez a0, other\nsw s0, 0(sp)\nj join\nother:\nsw s1, 0(sp)\njoin:\nlw t0, 0(sp)\nlw ra, 4(sp)\naddi sp, sp, 8",
+        "li t0, 0\nli t1, 3\nloop:\naddi t0, t0, 1\nblt t0, t1, loop\nmv t2, t0",
+        "addi sp, sp, -16\nli t0, 4\nloop:\naddi sp, sp, -4\naddi t0, t0, -1\nbnez t0, loop\nmv t1, sp",
         "li t0, -2147483648\nli t1, -1\ndiv t2, t0, t1\nrem t3, t0, t1\ndiv t4, t0, x0\nremu t5, t0, x0\nmulhsu t6, t1, t1",
     ];
     for p in fixed { if run(p.to_string()) { return 1; } }
-    println!("no false claim among {n} straight-line programs x 4 initial register files");
+    println!("no false claim among {n} programs x 6 initial register files");
     0
 }
